@@ -28,7 +28,8 @@ pub const T_SNIFF: u64 = 4; // is_onnx_model(ValueReader::from_buf)
 pub const T_LOAD: u64 = 8; // rten::Model::load
 pub const T_INSTR: u64 = 16; // ModelProto::decode over an instrumented reader (one chunk)
 pub const T_INSTR1: u64 = 32; // same, reader hands out one byte per fill_buf
-const ALL_TARGETS: u64 = 63;
+pub const T_ISNIFF: u64 = 64; // is_onnx_model over the instrumented reader
+const ALL_TARGETS: u64 = 127;
 
 fn target_name(t: u64) -> &'static str {
     match t {
@@ -38,6 +39,7 @@ fn target_name(t: u64) -> &'static str {
         T_LOAD => "Model::load",
         T_INSTR => "decode(instrumented reader)",
         T_INSTR1 => "decode(instrumented reader, 1-byte chunks)",
+        T_ISNIFF => "is_onnx_model(instrumented reader)",
         _ => "?",
     }
 }
@@ -223,7 +225,7 @@ pub fn build_set(i: usize, thorough: bool) -> SetSpec {
         },
         1 => SetSpec {
             set: InputSet { name: "all byte strings of length 3".into(), kind: SetKind::AllBytes { min_len: 3, max_len: 3 } },
-            mask: if thorough { ALL_TARGETS } else { T_BUF | T_SNIFF | T_INSTR | T_INSTR1 },
+            mask: if thorough { ALL_TARGETS } else { T_BUF | T_SNIFF | T_INSTR | T_INSTR1 | T_ISNIFF },
             batch: if thorough { 16384 } else { 65536 },
         },
         2 => SetSpec {
@@ -231,7 +233,7 @@ pub fn build_set(i: usize, thorough: bool) -> SetSpec {
                 name: format!("strings of length 4..={} over {{00,01,08,0a,12,3a,7f,80,ff}}", if thorough { 7 } else { 5 }),
                 kind: SetKind::Alphabet { alpha: ALPHA9.to_vec(), min_len: 4, max_len: if thorough { 7 } else { 5 } },
             },
-            mask: if thorough { T_BUF | T_FILE | T_SNIFF | T_INSTR | T_INSTR1 } else { ALL_TARGETS },
+            mask: if thorough { T_BUF | T_FILE | T_SNIFF | T_INSTR | T_INSTR1 | T_ISNIFF } else { ALL_TARGETS },
             batch: if thorough { 32768 } else { 2048 },
         },
         3 => SetSpec {
@@ -374,14 +376,22 @@ struct InstrResult {
     tripped: bool,
 }
 
-fn run_instrumented(bytes: &[u8], chunk: usize) -> InstrResult {
+fn run_instrumented(bytes: &[u8], chunk: usize, sniff: bool) -> InstrResult {
     let st = Stats::default();
     let len = bytes.len() as u64;
     let r = Counting { data: bytes, pos: 0, chunk, st: &st, budget_bytes: 2 * len + 64, budget_ops: 8 * len + 64 };
-    let out = match drv::catch(|| ModelProto::decode(ValueReader::new(ReadPos::new(r)))) {
-        Ok(Ok(_)) => Out::Ok,
-        Ok(Err(e)) => Out::Err(err_kind(&e)),
-        Err(p) => Out::Panic(p),
+    let out = if sniff {
+        match drv::catch(|| is_onnx_model(ValueReader::new(ReadPos::new(r)))) {
+            Ok(true) => Out::Ok,
+            Ok(false) => Out::Err("false".into()),
+            Err(p) => Out::Panic(p),
+        }
+    } else {
+        match drv::catch(|| ModelProto::decode(ValueReader::new(ReadPos::new(r)))) {
+            Ok(Ok(_)) => Out::Ok,
+            Ok(Err(e)) => Out::Err(err_kind(&e)),
+            Err(p) => Out::Panic(p),
+        }
     };
     InstrResult {
         out,
@@ -467,38 +477,7 @@ fn describe_overlong(o: &Overlong) -> String {
     )
 }
 
-#[derive(Default)]
-struct BatchAcc {
-    n: u64,
-    hist: BTreeMap<String, u64>,
-    vio: BTreeMap<String, (u64, u64, String)>, // sig -> (count, first idx, detail)
-    obs: BTreeMap<String, u64>,
-    nontrivial: u64,
-    must_err: u64,
-    hashes: Vec<u64>,
-    tripped: Vec<u64>,
-    max_ratio_milli: u64,
-}
-
-impl BatchAcc {
-    fn vio(&mut self, sig: String, idx: u64, detail: String) {
-        let e = self.vio.entry(sig).or_insert((0, idx, detail));
-        e.0 += 1;
-    }
-    fn to_json(&self) -> Json {
-        json!({
-            "n": self.n,
-            "hist": self.hist,
-            "vio": self.vio.iter().map(|(k, v)| json!({"sig": k, "count": v.0, "idx": v.1, "detail": v.2})).collect::<Vec<_>>(),
-            "obs": self.obs,
-            "nontrivial": self.nontrivial,
-            "must_err": self.must_err,
-            "hashes": self.hashes,
-            "tripped": self.tripped,
-            "max_ratio_milli": self.max_ratio_milli,
-        })
-    }
-}
+type BatchAcc = drv::Acc;
 
 struct WorkerState {
     memfile: MemFile,
@@ -511,34 +490,40 @@ fn eval(ws: &mut WorkerState, bytes: &[u8], idx: u64, mask: u64, force_real: boo
     let full = pbref::walk(bytes, Mt::Model);
     let slim = pbref::walk(bytes, Mt::SlimModel);
     if full.fields >= 1 {
-        acc.nontrivial += 1;
+        acc.count("nontrivial", 1);
         if want_hash {
             acc.hashes.push(vp_core::fnv(bytes));
         }
     }
     if full.must_err().is_some() {
-        acc.must_err += 1;
+        acc.count("must_err", 1);
     }
     let mut results: Vec<(u64, Out)> = Vec::new();
-    #[allow(unused_assignments)]
-    let mut tripped = false;
+    // which real entry points would not terminate (predicted by the instrumented runs)
+    let mut tripped_full = false;
+    let mut tripped_sniff = false;
+    let mut isniff: Option<Out> = None;
 
-    for (t, chunk) in [(T_INSTR, usize::MAX), (T_INSTR1, 1usize)] {
+    for (t, chunk, is_sniff) in [(T_INSTR, usize::MAX, false), (T_INSTR1, 1usize, false), (T_ISNIFF, usize::MAX, true)] {
         if mask & t == 0 {
             continue;
         }
         prog.stage(t);
-        let r = run_instrumented(bytes, chunk);
+        let r = run_instrumented(bytes, chunk, is_sniff);
         let len = bytes.len() as u64;
-        acc.max_ratio_milli = acc.max_ratio_milli.max(r.consumed * 1000 / len.max(1));
+        acc.max("ratio_milli", r.consumed * 1000 / len.max(1));
         if r.tripped {
-            tripped = true;
+            if is_sniff {
+                tripped_sniff = true;
+            } else {
+                tripped_full = true;
+            }
             let how = if r.neg_seeks > 0 { "a skip seeks backwards and fields are decoded again" } else { "reads that make no progress" };
             acc.vio(
                 format!("decoder exceeds the linear-time budget: {how}"),
                 idx,
                 format!(
-                    "{}: input of {} bytes; reader handed out {} bytes in {} operations (budget {} bytes / {} operations), {} backward seek(s), largest {}; instrumented reader then refused to continue",
+                    "[{}] input of {} bytes; reader handed out {} bytes in {} operations (budget {} bytes / {} operations), {} backward seek(s), largest {}; the instrumented reader then refused to continue",
                     target_name(t), len, r.consumed, r.ops, 2 * len + 64, 8 * len + 64, r.neg_seeks, r.most_negative
                 ),
             );
@@ -546,13 +531,19 @@ fn eval(ws: &mut WorkerState, bytes: &[u8], idx: u64, mask: u64, force_real: boo
             if r.neg_seeks > 0 {
                 *acc.obs.entry("backward seek during decode (terminated)".into()).or_insert(0) += 1;
             }
-            results.push((t, r.out));
+            if is_sniff {
+                isniff = Some(r.out);
+            } else {
+                results.push((t, r.out));
+            }
         }
     }
-    if tripped {
-        acc.tripped.push(idx);
+    if tripped_full {
+        acc.notes.push(json!([idx, "full"]));
+    } else if tripped_sniff {
+        acc.notes.push(json!([idx, "sniff"]));
     }
-    if !tripped || force_real {
+    if !tripped_full || force_real {
         if mask & T_BUF != 0 {
             prog.stage(T_BUF);
             let out = match drv::catch(|| ModelProto::parse_buf(bytes)) {
@@ -572,23 +563,24 @@ fn eval(ws: &mut WorkerState, bytes: &[u8], idx: u64, mask: u64, force_real: boo
             };
             results.push((T_FILE, out));
         }
-        if mask & T_LOAD != 0 {
-            prog.stage(T_LOAD);
-            let data = bytes.to_vec();
-            let out = match drv::catch(|| rten::Model::load(data)) {
-                Ok(Ok(_)) => Out::Ok,
-                Ok(Err(e)) => {
-                    let s = format!("{e:?}");
-                    Out::Err(s.split(['(', ' ', '{']).next().unwrap_or("").to_string())
-                }
-                Err(p) => Out::Panic(p),
-            };
-            results.push((T_LOAD, out));
-        }
+    }
+    let any_trip = tripped_full || tripped_sniff;
+    if mask & T_LOAD != 0 && (!any_trip || force_real) {
+        prog.stage(T_LOAD);
+        let data = bytes.to_vec();
+        let out = match drv::catch(|| rten::Model::load(data)) {
+            Ok(Ok(_)) => Out::Ok,
+            Ok(Err(e)) => {
+                let s = format!("{e:?}");
+                Out::Err(s.split(['(', ' ', '{']).next().unwrap_or("").to_string())
+            }
+            Err(p) => Out::Panic(p),
+        };
+        results.push((T_LOAD, out));
     }
     // the sniffer has its own (flat) schema
     let mut sniff: Option<Result<bool, PanicInfo>> = None;
-    if mask & T_SNIFF != 0 && (!tripped || force_real) {
+    if mask & T_SNIFF != 0 && (!tripped_sniff || force_real) {
         prog.stage(T_SNIFF);
         sniff = Some(drv::catch(|| is_onnx_model(ValueReader::from_buf(bytes))));
     }
@@ -642,6 +634,18 @@ fn eval(ws: &mut WorkerState, bytes: &[u8], idx: u64, mask: u64, force_real: boo
             }
         }
     }
+    if let Some(o) = &isniff {
+        *acc.hist.entry(format!("{}: {}", target_name(T_ISNIFF), o.key())).or_insert(0) += 1;
+        match o {
+            Out::Ok => {
+                if let Some(ov) = slim.must_err() {
+                    flag(sig_accept(ov), target_name(T_ISNIFF), format!("returned true although {}", describe_overlong(ov)));
+                }
+            }
+            Out::Panic(p) => flag(sig_panic(p), target_name(T_ISNIFF), format!("panicked: \"{}\" at {}:{}", p.msg, p.file, p.line)),
+            Out::Err(_) => {}
+        }
+    }
     for (sig, (who, what)) in per_sig {
         acc.vio(sig, idx, format!("[{}] {}", who.join(", "), what));
     }
@@ -653,23 +657,31 @@ fn eval(ws: &mut WorkerState, bytes: &[u8], idx: u64, mask: u64, force_real: boo
 }
 
 thread_local! {
-    static SETS: std::cell::RefCell<BTreeMap<(usize, bool), SetSpec>> = const { std::cell::RefCell::new(BTreeMap::new()) };
+    static SETS: std::cell::RefCell<BTreeMap<(usize, bool), &'static SetSpec>> = const { std::cell::RefCell::new(BTreeMap::new()) };
 }
 
+fn set_for(i: usize, thorough: bool) -> &'static SetSpec {
+    SETS.with(|s| *s.borrow_mut().entry((i, thorough)).or_insert_with(|| Box::leak(Box::new(build_set(i, thorough)))))
+}
+
+/// Worker: supervises forked children that evaluate the cases.
 pub fn worker() -> ! {
     drv::die_with_parent();
-    let mut ws: Option<WorkerState> = None;
+    let sup = drv::Supervisor::new();
     vp_core::isolate::worker_loop(move |req| {
         drv::install_panic_hook();
-        let ws = ws.get_or_insert_with(|| WorkerState { memfile: MemFile::new() });
-        let prog = drv::progress_for(req);
         let mask = req["mask"].as_u64().unwrap_or(ALL_TARGETS);
         let force_real = req["force_real"].as_bool().unwrap_or(false);
-        let mut acc = BatchAcc::default();
+        let case_timeout = Duration::from_millis(req["case_timeout_ms"].as_u64().unwrap_or(5000));
         if let Some(h) = req["explicit"].as_str() {
             let bytes = unhex(h);
-            eval(ws, &bytes, 0, mask, force_real, prog, &mut acc, false);
-            return acc.to_json();
+            let mut body = |_from: u64, _to: u64, prog: &drv::Progress| -> Json {
+                let mut ws = WorkerState { memfile: MemFile::new() };
+                let mut acc = BatchAcc::default();
+                eval(&mut ws, &bytes, 0, mask, force_real, prog, &mut acc, false);
+                acc.to_json()
+            };
+            return drv::supervised_answer(&sup, 0, 0, 1, case_timeout, &mut body);
         }
         let thorough = req["thorough"].as_bool().unwrap_or(false);
         let set = req["set"].as_u64().unwrap_or(0) as usize;
@@ -677,17 +689,19 @@ pub fn worker() -> ! {
             return json!({"machinery": "unknown set"});
         }
         let (start, end) = (req["start"].as_u64().unwrap_or(0), req["end"].as_u64().unwrap_or(0));
-        SETS.with(|s| {
-            let mut g = s.borrow_mut();
-            let spec = g.entry((set, thorough)).or_insert_with(|| build_set(set, thorough));
-            let want_hash = !matches!(spec.set.kind, SetKind::AllBytes { .. } | SetKind::Alphabet { .. });
+        let spec = set_for(set, thorough);
+        let want_hash = !matches!(spec.set.kind, SetKind::AllBytes { .. } | SetKind::Alphabet { .. });
+        let mut body = |from: u64, to: u64, prog: &drv::Progress| -> Json {
+            let mut ws = WorkerState { memfile: MemFile::new() };
+            let mut acc = BatchAcc::default();
             let mut buf = Vec::new();
-            for idx in start..end.min(spec.set.len()) {
+            for idx in from..to.min(spec.set.len()) {
                 spec.set.fill(idx, &mut buf);
-                eval(ws, &buf, idx, mask, force_real, prog, &mut acc, want_hash);
+                eval(&mut ws, &buf, idx, mask, force_real, prog, &mut acc, want_hash);
             }
             acc.to_json()
-        })
+        };
+        drv::supervised_answer(&sup, set, start, end.min(spec.set.len()), case_timeout, &mut body)
     })
 }
 
@@ -695,6 +709,7 @@ pub fn worker() -> ! {
 
 fn fault_signature(f: &Fault, bytes: &[u8]) -> (String, String) {
     let full = pbref::walk(bytes, Mt::Model);
+    let slim = pbref::walk(bytes, Mt::SlimModel);
     let what = match &f.kind {
         FaultKind::Timeout => "does not return (hang)".to_string(),
         FaultKind::Died(_) => {
@@ -707,7 +722,8 @@ fn fault_signature(f: &Fault, bytes: &[u8]) -> (String, String) {
             }
         }
     };
-    let feature = match full.must_err() {
+    let over = full.must_err().or(slim.must_err());
+    let feature = match over {
         Some(o) => format!("LEN field longer than the remaining input (field kind={}, declared length {})", o.kind, len_class(o.declared)),
         None => {
             if full.max_depth >= 100 {
@@ -722,7 +738,7 @@ fn fault_signature(f: &Fault, bytes: &[u8]) -> (String, String) {
     };
     let sig = format!("decoder {what} on {feature}");
     let detail = format!(
-        "entry point {} on a {}-byte input: {}; worker stderr: {:?}; reference walker: {:?}, max nesting depth {}",
+        "entry point {} on a {}-byte input: {}; stderr of the dying process: {:?}; reference walker: {:?}, max nesting depth {}",
         target_name(f.stage),
         bytes.len(),
         f.kind.describe(),
@@ -741,14 +757,8 @@ pub fn run(ctx: Ctx) -> ! {
     }
     let thorough = ctx.tier.is_thorough();
     let sets = build_sets(thorough);
-    let book = VioBook::new();
-    let hist: Mutex<BTreeMap<String, u64>> = Mutex::new(BTreeMap::new());
-    let obs: Mutex<BTreeMap<String, u64>> = Mutex::new(BTreeMap::new());
-    let hashes: Mutex<HashSet<u64>> = Mutex::new(HashSet::new());
-    let counts = vp_core::Counters::new();
-    let tripped: Mutex<Vec<(usize, u64)>> = Mutex::new(Vec::new());
-    let faults: Mutex<Vec<Fault>> = Mutex::new(Vec::new());
-    let max_ratio: Mutex<u64> = Mutex::new(0);
+    let tot = drv::Totals::new();
+    let case_timeout_ms: u64 = if thorough { 10_000 } else { 5_000 };
 
     let mut batches = Vec::new();
     let only: Option<usize> = std::env::var("MC_ONLY_SET").ok().and_then(|s| s.parse().ok());
@@ -766,115 +776,103 @@ pub fn run(ctx: Ctx) -> ! {
     let cfg = DrvConfig {
         worker: "c38",
         nworkers: vp_core::par::threads(),
-        watchdog: Duration::from_secs(if thorough { 60 } else { 30 }),
-        confirm_watchdog: Duration::from_secs(8),
+        // hangs and deaths are handled by the fork supervisor inside the worker;
+        // this outer watchdog only guards the supervisor itself
+        watchdog: Duration::from_secs(3600),
+        confirm_watchdog: Duration::from_secs(3600),
         mem_limit: MEM_LIMIT,
     };
-    let make_req = |b: &Batch, ppath: &str, _single: bool| -> Json {
-        json!({"set": b.set, "start": b.start, "end": b.end, "mask": sets[b.set].mask, "prog": ppath, "thorough": thorough})
+    let make_req = |b: &Batch, _ppath: &str, _single: bool| -> Json {
+        json!({"set": b.set, "start": b.start, "end": b.end, "mask": sets[b.set].mask, "thorough": thorough, "case_timeout_ms": case_timeout_ms})
     };
-    let on_answer = |b: &Batch, a: &Json| {
-        counts.add("evaluations", a["n"].as_u64().unwrap_or(0));
-        counts.add(&format!("set{}_evaluations", b.set), a["n"].as_u64().unwrap_or(0));
-        counts.add("must_err_inputs", a["must_err"].as_u64().unwrap_or(0));
-        let is_enum = matches!(sets[b.set].set.kind, SetKind::AllBytes { .. } | SetKind::Alphabet { .. });
-        if is_enum {
-            counts.add("nontrivial_enumerated", a["nontrivial"].as_u64().unwrap_or(0));
-        }
-        {
-            let mut g = hist.lock().unwrap();
-            if let Some(m) = a["hist"].as_object() {
-                for (k, v) in m {
-                    *g.entry(k.clone()).or_insert(0) += v.as_u64().unwrap_or(0);
-                }
-            }
-        }
-        {
-            let mut g = obs.lock().unwrap();
-            if let Some(m) = a["obs"].as_object() {
-                for (k, v) in m {
-                    *g.entry(k.clone()).or_insert(0) += v.as_u64().unwrap_or(0);
-                }
-            }
-        }
-        if let Some(hs) = a["hashes"].as_array() {
-            let mut g = hashes.lock().unwrap();
-            for h in hs {
-                if let Some(h) = h.as_u64() {
-                    g.insert(h);
-                }
-            }
-        }
-        if let Some(ts) = a["tripped"].as_array() {
-            let mut g = tripped.lock().unwrap();
-            for t in ts {
-                g.push((b.set, t.as_u64().unwrap_or(0)));
-            }
-        }
-        if let Some(vs) = a["vio"].as_array() {
-            for v in vs {
-                book.add(
-                    v["sig"].as_str().unwrap_or("?"),
-                    v["count"].as_u64().unwrap_or(1),
-                    b.set,
-                    v["idx"].as_u64().unwrap_or(0),
-                    v["detail"].as_str().unwrap_or(""),
-                );
-            }
-        }
-        let r = a["max_ratio_milli"].as_u64().unwrap_or(0);
-        let mut g = max_ratio.lock().unwrap();
-        *g = (*g).max(r);
-    };
+    let on_answer = |b: &Batch, a: &Json| tot.absorb(b.set, a);
     let on_fault = |f: &Fault| {
-        faults.lock().unwrap().push(f.clone());
+        vp_core::machinery_error(&format!("C38: the supervising worker itself failed: {f:?}"));
     };
     let stats = drv::run_batches(&cfg, &batches, &make_req, &on_answer, &on_fault);
 
     // faults (abort / hang of a whole entry point)
     let mut buf = Vec::new();
-    for f in faults.into_inner().unwrap() {
+    let mut fault_list = std::mem::take(&mut *tot.faults.lock().unwrap());
+    fault_list.sort_by_key(|f| (f.set, f.idx));
+    let n_faults = fault_list.len();
+    for f in fault_list {
         sets[f.set].set.fill(f.idx, &mut buf);
         let (sig, detail) = fault_signature(&f, &buf);
-        counts.add("evaluations", 1);
-        book.add(&sig, 1, f.set, f.idx, &detail);
+        tot.cnt.add("evaluations", 1);
+        tot.cnt.add(&format!("set{}_evaluations", f.set), 1);
+        tot.hist.lock().unwrap().entry(format!("{}: {}", target_name(f.stage), match f.kind { FaultKind::Timeout => "HANG".to_string(), FaultKind::Died(_) => format!("DIED({})", f.kind.short()) })).and_modify(|c| *c += 1).or_insert(1);
+        tot.book.add(&sig, 1, f.set, f.idx, &detail);
     }
 
-    // Inputs on which the instrumented reader ran out of budget were not given
-    // to the uninstrumented entry points inside the batch (they would hang the
-    // worker). Confirm the first few of them against the real parse_buf / parse_file.
-    let mut tr = tripped.into_inner().unwrap();
+    // Inputs on which an instrumented run exceeded its budget were not given to
+    // the corresponding uninstrumented entry points (they would not return).
+    // Confirm the smallest few of them against the real entry points.
+    let mut tr: Vec<(usize, u64, String)> = tot
+        .notes
+        .lock()
+        .unwrap()
+        .iter()
+        .map(|(set, j)| (*set, j[0].as_u64().unwrap_or(0), j[1].as_str().unwrap_or("").to_string()))
+        .collect();
     tr.sort();
     let mut confirm_notes = Vec::new();
-    let mut w = vp_core::isolate::Worker::new("c38", Duration::from_secs(5), MEM_LIMIT);
-    for (set, idx) in tr.iter().take(3) {
-        sets[*set].set.fill(*idx, &mut buf);
-        for t in [T_BUF, T_FILE] {
-            let out = w.run(&json!({"explicit": hex(&buf), "mask": t, "force_real": true, "prog": ""}));
-            let note = match out {
-                vp_core::isolate::Outcome::Timeout => format!("{} on {} did not return within 5 s (confirmed hang)", target_name(t), hex(&buf)),
-                vp_core::isolate::Outcome::Died(s) => format!("{} on {} killed the process: {s}", target_name(t), hex(&buf)),
-                vp_core::isolate::Outcome::Answer(_) => format!("{} on {} returned (instrumented reader over budget, real entry point terminated)", target_name(t), hex(&buf)),
-            };
-            confirm_notes.push(note);
+    let mut w = vp_core::isolate::Worker::new("c38", Duration::from_secs(600), MEM_LIMIT);
+    for which in ["full", "sniff"] {
+        for (set, idx, _) in tr.iter().filter(|t| t.2 == which).take(2) {
+            sets[*set].set.fill(*idx, &mut buf);
+            let targets: &[u64] = if which == "full" { &[T_BUF, T_FILE] } else { &[T_SNIFF, T_LOAD] };
+            for t in targets {
+                let out = w.run(&json!({"explicit": hex(&buf), "mask": t, "force_real": true, "case_timeout_ms": 5000}));
+                let note = match out {
+                    vp_core::isolate::Outcome::Answer(a) => {
+                        let fs = a["faults"].as_array().cloned().unwrap_or_default();
+                        if let Some(f) = fs.first() {
+                            if f["kind"] == "timeout" {
+                                format!("{} on {} did not return within 5 s, twice (confirmed hang)", target_name(*t), hex(&buf))
+                            } else {
+                                format!("{} on {} killed the process: {}", target_name(*t), hex(&buf), f["status"])
+                            }
+                        } else {
+                            format!("{} on {} returned: {}", target_name(*t), hex(&buf), a["hist"])
+                        }
+                    }
+                    other => format!("{} on {}: supervisor failure {:?}", target_name(*t), hex(&buf), other),
+                };
+                confirm_notes.push(note);
+            }
         }
     }
     drop(w);
+    if !tr.is_empty() && !confirm_notes.iter().any(|n| n.contains("confirmed hang")) {
+        tot.obs.lock().unwrap().insert("instrumented reader over budget but no real entry point hung in the confirmation sample".into(), 1);
+    }
 
     // non-vacuity
-    let hist = hist.into_inner().unwrap();
+    let hist = std::mem::take(&mut *tot.hist.lock().unwrap());
     let distinct_outcomes = hist.len();
-    let nontrivial = counts.get("nontrivial_enumerated") + hashes.lock().unwrap().len() as u64;
-    if counts.get("evaluations") == 0 || nontrivial < 2 || counts.get("must_err_inputs") == 0 {
-        ctx.machinery("C38: vacuous run (no input reached the oracle)");
+    let nontrivial = {
+        // enumerated sets are distinct by construction; explicit sets are de-duplicated by hash
+        let mut enumerated = 0;
+        for (i, s) in sets.iter().enumerate() {
+            if matches!(s.set.kind, SetKind::AllBytes { .. } | SetKind::Alphabet { .. }) {
+                enumerated += tot.cnt.get(&format!("set{i}_nontrivial"));
+            }
+        }
+        enumerated + tot.hashes.lock().unwrap().len() as u64
+    };
+    if only.is_none() {
+        if tot.cnt.get("evaluations") == 0 || nontrivial < 2 || tot.cnt.get("must_err") == 0 {
+            ctx.machinery("C38: vacuous run (no input reached the oracle)");
+        }
+        let ok_seen = hist.iter().any(|(k, v)| k.starts_with("parse_buf: Ok") && *v > 0);
+        let err_seen = hist.iter().any(|(k, v)| k.starts_with("parse_buf: Err") && *v > 0);
+        if !ok_seen || !err_seen {
+            ctx.machinery("C38: parse_buf never returned both Ok and Err");
+        }
     }
-    let ok_seen = hist.iter().any(|(k, v)| k.starts_with("parse_buf: Ok") && *v > 0);
-    let err_seen = hist.iter().any(|(k, v)| k.starts_with("parse_buf: Err") && *v > 0);
-    if !ok_seen || !err_seen {
-        ctx.machinery("C38: parse_buf never returned both Ok and Err");
-    }
-    if stats.faults_unconfirmed > 0 {
-        ctx.machinery("C38: a worker death did not reproduce when its case was re-run alone (nondeterminism)");
+    if tot.cnt.get("unconfirmed_deaths") > 0 {
+        ctx.machinery("C38: a process death did not reproduce when its case was re-run alone (nondeterminism)");
     }
 
     // report
@@ -888,7 +886,7 @@ pub fn run(ctx: Ctx) -> ! {
             }
         }
     }
-    for (sig, e) in book.drain() {
+    for (sig, e) in tot.book.drain() {
         let (set, idx) = e.key;
         sets[set].set.fill(idx, &mut buf);
         let case = json!({
@@ -903,7 +901,7 @@ pub fn run(ctx: Ctx) -> ! {
             ctx.violation(sig.clone(), Json::Null, "");
         }
     }
-    for (k, v) in obs.into_inner().unwrap() {
+    for (k, v) in std::mem::take(&mut *tot.obs.lock().unwrap()) {
         ctx.observe_n(&k, v);
     }
     let axes: Vec<Json> = sets
@@ -913,45 +911,53 @@ pub fn run(ctx: Ctx) -> ! {
             json!({
                 "set": s.set.name,
                 "inputs": s.set.len(),
-                "evaluated": counts.get(&format!("set{i}_evaluations")),
-                "entry_points": (0..6).filter(|b| s.mask >> b & 1 == 1).map(|b| target_name(1 << b)).collect::<Vec<_>>(),
+                "evaluated": tot.cnt.get(&format!("set{i}_evaluations")),
+                "entry_points": (0..7).filter(|b| s.mask >> b & 1 == 1).map(|b| target_name(1 << b)).collect::<Vec<_>>(),
             })
         })
         .collect();
     let total: u64 = sets.iter().map(|s| s.set.len()).sum();
     println!(
-        "C38 summary: {} inputs in {} sets, {} evaluated, {} non-trivial, {} must-be-error inputs, {} distinct (entry point, outcome) pairs, {} worker restarts",
+        "C38 summary: {} inputs in {} sets, {} evaluated, {} non-trivial, {} must-be-error inputs, {} distinct (entry point, outcome) pairs, {} process deaths/hangs isolated ({} forks)",
         total,
         sets.len(),
-        counts.get("evaluations"),
+        tot.cnt.get("evaluations"),
         nontrivial,
-        counts.get("must_err_inputs"),
+        tot.cnt.get("must_err"),
         distinct_outcomes,
-        stats.worker_restarts
+        n_faults,
+        tot.cnt.get("forks"),
     );
+    let exhaustive = only.is_none();
     let coverage = json!({
-        "evaluations": counts.get("evaluations"),
+        "evaluations": tot.cnt.get("evaluations"),
         "distinct_nontrivial": nontrivial,
-        "rule": "every input of every listed set is decoded by the real rten-onnx decoder through each listed entry point in an isolated worker process (RLIMIT_AS 8 GiB, watchdog). An input counts as non-trivial when the independent reference walker (public ONNX schema) decodes at least one complete well-formed field of it before stopping; inputs of the explicit sets are de-duplicated by hash, the exhaustive byte-string sets are distinct by construction.",
+        "rule": "every input of every listed set is decoded by the real rten-onnx decoder through each listed entry point in an isolated process (RLIMIT_AS 8 GiB, per-case watchdog). An input counts as non-trivial when the independent reference walker (public ONNX schema) decodes at least one complete well-formed field of it before stopping; inputs of the explicit sets are de-duplicated by hash, the exhaustive byte-string sets are distinct by construction.",
         "samples": samples.take(),
-        "exhaustive": true,
+        "exhaustive": exhaustive,
         "axes": axes,
         "inputs_total": total,
-        "must_be_error_inputs": counts.get("must_err_inputs"),
+        "must_be_error_inputs": tot.cnt.get("must_err"),
         "distinct_outcomes": distinct_outcomes,
         "outcome_histogram": hist,
         "linear_budget": "instrumented reader: bytes handed out <= 2*len+64, reader operations <= 8*len+64",
-        "max_bytes_handed_out_per_input_byte_x1000_within_budget": *max_ratio.lock().unwrap(),
+        "max_bytes_handed_out_per_input_byte_x1000_within_budget": tot.maxs.lock().unwrap().get("ratio_milli").copied().unwrap_or(0),
+        "inputs_over_linear_budget": tr.len(),
         "hang_confirmations": confirm_notes,
-        "isolation": drv::stats_json(&stats),
+        "process_deaths_and_hangs_isolated": n_faults,
+        "isolation": {
+            "forked_children": tot.cnt.get("forks"),
+            "timeouts_not_reproduced_alone": tot.cnt.get("unconfirmed_timeouts"),
+            "outer": drv::stats_json(&stats),
+        },
     });
     ctx.finish(
         "fault_enumeration",
         coverage,
         vec![
             "a memfd-backed std::fs::File stands for 'a file' in parse_file".into(),
-            "linear time is measured as reader operations / bytes handed out by an instrumented BufRead+Seek that mirrors std::io::Cursor; wall-clock is only used as a watchdog".into(),
-            "allocation failure is observed under RLIMIT_AS = 8 GiB; a worker death is attributed to the case recorded in the shared progress cell and re-run alone before it is reported".into(),
+            "linear time is measured as reader operations / bytes handed out by an instrumented BufRead+Seek that mirrors std::io::Cursor; wall-clock is only used as a per-case watchdog".into(),
+            "allocation failure is observed under RLIMIT_AS = 8 GiB; a process death or hang is attributed to the case recorded in the shared progress cell and re-run alone before it is reported".into(),
             "the reference walker demands an error only for a LEN field longer than the rest of the whole input that is reached through well-formed fields; everything else is left to the decoder".into(),
         ],
     )
@@ -960,49 +966,42 @@ pub fn run(ctx: Ctx) -> ! {
 fn replay(ctx: Ctx, path: &std::path::Path) -> ! {
     let case = vp_core::read_replay_case(path);
     let bytes = unhex(case["bytes_hex"].as_str().unwrap_or(""));
-    let ppath = format!("/tmp/mc-bytes-{}-replay.prog", std::process::id());
-    let _ = std::fs::write(&ppath, [0u8; 16]);
-    let mut w = vp_core::isolate::Worker::new("c38", Duration::from_secs(8), MEM_LIMIT);
-    let out = w.run(&json!({"explicit": hex(&bytes), "mask": ALL_TARGETS, "prog": ppath}));
+    let mut w = vp_core::isolate::Worker::new("c38", Duration::from_secs(600), MEM_LIMIT);
     let case_json = json!({"bytes_hex": hex(&bytes), "length": bytes.len(), "what": case["what"]});
-    let mut tripped = false;
-    match out {
-        vp_core::isolate::Outcome::Answer(a) => {
-            if let Some(vs) = a["vio"].as_array() {
-                for v in vs {
-                    ctx.violation(v["sig"].as_str().unwrap_or("?"), case_json.clone(), v["detail"].as_str().unwrap_or(""));
-                }
-            }
-            tripped = a["tripped"].as_array().map(|t| !t.is_empty()).unwrap_or(false);
-            println!("replay outcomes: {}", a["hist"]);
+    let mut run_one = |mask: u64, force: bool| -> Json {
+        match w.run(&json!({"explicit": hex(&bytes), "mask": mask, "force_real": force, "case_timeout_ms": 5000})) {
+            vp_core::isolate::Outcome::Answer(a) => a,
+            other => vp_core::machinery_error(&format!("replay: supervisor failure {other:?}")),
         }
-        other => {
-            let b = std::fs::read(&ppath).unwrap_or_default();
-            let stage = if b.len() >= 16 { u64::from_le_bytes(b[8..16].try_into().unwrap()) } else { 0 };
-            let kind = match other {
-                vp_core::isolate::Outcome::Timeout => FaultKind::Timeout,
-                vp_core::isolate::Outcome::Died(s) => FaultKind::Died(s),
-                _ => unreachable!(),
-            };
-            let f = Fault { set: 0, idx: 0, stage, kind, stderr: drv::take_stderr(&ppath) };
-            let (sig, detail) = fault_signature(&f, &bytes);
-            ctx.violation(sig, case_json.clone(), detail);
-        }
-    }
-    if tripped {
-        let out = w.run(&json!({"explicit": hex(&bytes), "mask": T_BUF, "force_real": true, "prog": ppath}));
-        println!(
-            "replay: parse_buf on this input: {}",
-            match out {
-                vp_core::isolate::Outcome::Timeout => "did not return within 8 s (hang)".to_string(),
-                vp_core::isolate::Outcome::Died(s) => format!("process died: {s}"),
-                vp_core::isolate::Outcome::Answer(a) => format!("returned: {}", a["hist"]),
+    };
+    let mut report = |a: &Json| {
+        if let Some(vs) = a["vio"].as_array() {
+            for v in vs {
+                ctx.violation(v["sig"].as_str().unwrap_or("?"), case_json.clone(), v["detail"].as_str().unwrap_or(""));
             }
-        );
+        }
+        if let Some(fs) = a["faults"].as_array() {
+            for f in fs {
+                let f = drv::fault_from_json(f);
+                let (sig, detail) = fault_signature(&f, &bytes);
+                ctx.violation(sig, case_json.clone(), detail);
+            }
+        }
+        println!("replay outcomes: {} faults: {}", a["hist"], a["faults"]);
+    };
+    let a = run_one(ALL_TARGETS, false);
+    report(&a);
+    let tripped: Vec<String> = a["notes"].as_array().map(|t| t.iter().map(|x| x[1].as_str().unwrap_or("").to_string()).collect()).unwrap_or_default();
+    for which in tripped {
+        let mask = if which == "full" { T_BUF | T_FILE } else { T_SNIFF | T_LOAD };
+        for t in [T_BUF, T_FILE, T_SNIFF, T_LOAD] {
+            if mask & t != 0 {
+                let a = run_one(t, true);
+                report(&a);
+            }
+        }
     }
     drop(w);
-    let _ = std::fs::remove_file(&ppath);
-    let _ = std::fs::remove_file(drv::err_path(&ppath));
     ctx.finish(
         "fault_enumeration",
         json!({"evaluations": 1, "distinct_nontrivial": 2, "rule": "replay of one recorded case", "samples": [case_json]}),
